@@ -3,9 +3,11 @@
 Oracle: after every step of a generated history the value reported by the
 long-lived likelihood function / calculator is compared with a value computed
 by an object that has no history: a newly constructed likelihood function on
-which every parameter is set as a constant to the value the harness recorded
-(or, after an optimiser step, to the value the function reports), and a
-newly made calculator without undo buffer evaluated at the same vector.
+which every parameter is set as a constant to the value the HARNESS recorded
+from the step encodings (after an optimiser step: to the value the function
+reports), and a newly made calculator without undo buffer evaluated at the
+same vector.  The values the function reports are compared with the harness
+record for every parameter and every edge after every step.
 """
 
 from __future__ import annotations
@@ -20,30 +22,51 @@ from vlib.core import Soft, Sub
 PROPERTY_ID = "C07"
 LEVEL = "exploration"
 RULE = (
-    "lf_history sub-check: a case is a model (HKY85, GTR, TN93, F81, GN, gamma-binned HKY85, GeneralStationary), a tree of 3-5 "
-    "tips, an alignment and a history of 1-10 steps drawn from set_param_rule (global / edge subsets / single edge, value or "
-    "init, constant or free, independent or shared), set_motif_probs, set_alignment, updates_postponed blocks of 2-4 such steps, "
-    "a short optimise, and export/import of the parameter rules. After every step lf.lnL is compared with a newly built function "
-    "holding the recorded values as constants. calculator sub-check: a calculator made from a partly constrained function is "
-    "driven through 2-12 change vectors (single and multiple changes, reverts to the previous vector, repeats, values at and "
-    "beyond the bounds, changes through calc.change with explicit (index, value) lists) and compared after every evaluation with "
-    "a newly made calculator without undo. Non-trivial = a history of >= 4 steps containing a revert or a postponed block "
-    "followed by another change; distinct = distinct case encodings."
+    "lf_history sub-check: a case is a model (HKY85, GTR, TN93, F81, GN, gamma-binned HKY85, GeneralStationary, codon MG94HKY; "
+    "optionally built with optimise_motif_probs=True), a tree of 3-5 tips, an alignment and a history of 1-10 steps drawn from "
+    "set_param_rule (global / edge subsets / single edge, value or init, constant or free, independent or shared, optional "
+    "lower / upper bounds, inits beyond the bounds), set_motif_probs, set_alignment, set_time_heterogeneity, set_local_clock, "
+    "updates_postponed blocks and apply_param_rules batches of 2-4 such steps, REJECTED changes (unknown edge, edge and edges "
+    "together, crossed bounds, unknown / derived parameter, unknown dimension, motif probabilities not summing to one) on their "
+    "own and inside a postponed block / batch, a short optimise, and export/import of the parameter rules. The history "
+    "continues after a rejected change. The harness keeps its own record of the intended settings ((parameter, edge) -> value "
+    "and bounds, motif and bin probabilities) from the step encodings; after every step every reported parameter value is "
+    "compared with the record and lf.lnL with a newly built function holding the record as constants. calculator sub-check: a "
+    "calculator made from a partly constrained function is driven through 2-12 change vectors (single and multiple changes, "
+    "reverts to the previous vector, reverts combined with a change of other coordinates as line searches emit, repeats, "
+    "values at and beyond the bounds, changes through calc.change with explicit (index, value) lists) and compared after every "
+    "evaluation with a newly made calculator without undo. Non-trivial = a history of >= 4 steps containing a revert, or a "
+    "postponed block / rejected change followed by another change; distinct = distinct case encodings."
 )
 ASSUMPTIONS = [
     "tolerance on log-likelihoods: 1e-9 * max(1, |lnL|) (the fresh-function comparison was bitwise exact in probes)",
-    "the fresh function is built from values reported by get_param_value / get_motif_probs after each step; for steps that set a value the reported value is also compared with the value set (relative 1e-12)",
+    "the fresh function is built from the harness record of intended settings; the record is re-read from the function only where a step does not determine the values: after optimise, after a GeneralStationary rejection, and for motif / bin probabilities as long as no step has set them (they derive from the alignment / the default)",
+    "initial state: lengths as written in the tree, every rate parameter 1.0 (ParamDefn.default), bounds length [0, 10], rate parameters [1e-6, 1e6], rate_shape [0.01, 1e10] (class attributes of LengthDefn / RatioParamDefn / GammaDefn)",
+    "bounds of a free rule follow _LeafDefn.assign_all: per scope group the widest bounds of the free settings currently in the group (class defaults when all are constant), overridden by lower= / upper=; an init outside them is moved to the nearer bound (the library warns 'Value of ... increased / decreased to keep within bounds'); lower > upper raises ValueError before anything is assigned",
+    "a set_param_rule / set_motif_probs call that raises leaves the settings untouched (assign_all collects all settings before assigning any); one that returns has taken effect. So after an exception inside an updates_postponed block or an apply_param_rules batch the intended state is: inner changes before the failing one applied, the failing one and later ones not; 'Temporarily turn off calculation' means calculation is on again once the block is left, by whichever route",
+    "rejections asserted: unknown edge -> InvalidScopeError and unknown dimension -> InvalidDimensionError (tests/test_recalculation.py), edge= together with edges= -> TreeError, crossed bounds -> ValueError, derived parameter -> ValueError ('not settable as it is derived from'), unknown parameter -> KeyError, motif probabilities summing to 2 -> ValueError",
+    "GeneralStationary may reject a rate combination (ParameterOutOfBoundsError) at whichever call first evaluates it. What lnL reports between such a rejection and the next accepted change is not specified and not compared; the record is re-read from the function and the history continues: from the next accepted change on the function must again agree with a fresh one. For GeneralStationary the fresh function is filled inside one updates_postponed block so that only the final combination is evaluated",
+    "set_local_clock is only used on two tips attached to the same internal node other than the root (its docstring: 'only valid for tips connected to the same node'); both lengths become the mean of the current two",
+    "set_time_heterogeneity applies one rule per (edge set, rate parameter of the model) with the given is_independent / is_constant / value / init / lower / upper; not used on the gamma-binned model (an independent kappa would also split between bins) nor on GeneralStationary",
     "an evaluation that raises inside the calculator (value outside the feasible region) is an allowed outcome; the next evaluation must again agree with a fresh calculator",
     "optimise is limited to <= 20 evaluations with limit_action='ignore'; only consistency of reported values and reported lnL is asserted after it",
 ]
 
-MODELS = ["HKY85", "GTR", "TN93", "F81", "GN", "HKY85+G", "GS"]
+MODELS = ["HKY85", "GTR", "TN93", "F81", "GN", "HKY85+G", "GS", "MG94HKY"]
 TREES = [
     ("(a:0.1,b:0.2,c:0.3)", ["a", "b", "c"], ["a", "b", "c"]),
     ("((a:0.1,b:0.2):0.05,c:0.3,d:0.1)", ["a", "b", "c", "d"], ["a", "b", "c", "d", "edge.0"]),
     ("((a:0.1,b:0.2):0.05,(c:0.3,d:0.1):0.2,e:0.4)", ["a", "b", "c", "d", "e"], ["a", "b", "c", "d", "e", "edge.0", "edge.1"]),
     ("(a:0.3,b:0.2,c:0.3,d:0.15)", ["a", "b", "c", "d"], ["a", "b", "c", "d"]),
 ]
+TREE_LENGTHS = {
+    TREES[0][0]: {"a": 0.1, "b": 0.2, "c": 0.3},
+    TREES[1][0]: {"a": 0.1, "b": 0.2, "c": 0.3, "d": 0.1, "edge.0": 0.05},
+    TREES[2][0]: {"a": 0.1, "b": 0.2, "c": 0.3, "d": 0.1, "e": 0.4, "edge.0": 0.05, "edge.1": 0.2},
+    TREES[3][0]: {"a": 0.3, "b": 0.2, "c": 0.3, "d": 0.15},
+}
+# pairs of tips attached to the same internal node that is not the root
+SISTERS = {TREES[0][0]: [], TREES[1][0]: [["a", "b"]], TREES[2][0]: [["a", "b"], ["c", "d"]], TREES[3][0]: []}
 RATE_PARAMS = {
     "HKY85": ["kappa"],
     "HKY85+G": ["kappa"],
@@ -52,15 +75,33 @@ RATE_PARAMS = {
     "F81": [],
     "GN": ["A>C", "A>G", "A>T", "C>A", "C>G", "C>T", "G>A", "G>C", "G>T", "T>A", "T>C"],
     "GS": None,  # discovered at run time
+    "MG94HKY": ["kappa", "omega"],
 }
+TIME_HET_MODELS = ["HKY85", "GTR", "TN93", "GN", "MG94HKY"]
+SENSE_CODONS = ["ATG", "GCT", "GCC", "AAA", "AAG", "TTT", "CTG", "GAT", "GAC", "CCC", "TGG", "ACG", "GGT", "CAT", "AGA", "TCA"]
+BAD_KINDS = ["unknown-edge", "unknown-edge-in-list", "edge-and-edges", "crossed-bounds", "unknown-par", "derived-par", "unknown-dimension", "mprobs-sum"]
+POISON_SIG = "after-error-in-postponed-block/stale-state"
+
+
+def default_bounds(par):
+    if par == "length":
+        return (0.0, 10.0)
+    if par == "rate_shape":
+        return (1e-2, 1e10)
+    return (1e-6, 1e6)
 
 
 # -------------------------------------------------------------- generator
 @st.composite
-def aln_st(draw, tips, gaps_ok):
-    n = draw(st.integers(6, 20))
-    alpha = "ACGT" * 5 + ("N-R" if gaps_ok else "")
-    base = draw(st.lists(st.sampled_from("ACGT"), min_size=n, max_size=n))
+def aln_st(draw, tips, gaps_ok, codon=False):
+    if codon:
+        n = draw(st.integers(2, 5))
+        alpha = SENSE_CODONS + (["---"] if gaps_ok else [])
+        base = draw(st.lists(st.sampled_from(SENSE_CODONS), min_size=n, max_size=n))
+    else:
+        n = draw(st.integers(6, 20))
+        alpha = "ACGT" * 5 + ("N-R" if gaps_ok else "")
+        base = draw(st.lists(st.sampled_from("ACGT"), min_size=n, max_size=n))
     rows = {}
     for t in tips:
         row = list(base)
@@ -87,11 +128,18 @@ def param_step(draw, model, edges):
     value = round(draw(st.floats(0.05, 4.0)), 4)
     if par == "GSPAR":
         value = round(draw(st.floats(0.9, 1.1)), 4)  # GeneralStationary rejects many combinations as infeasible
+    const = draw(st.booleans())
+    step = {"op": "set_param", "par": par, "scope": None, "value": value, "const": const, "indep": None}
+    if not const and par != "GSPAR" and draw(st.integers(0, 3)) == 0:
+        # every lower offered is below every upper offered, so bounds never cross by accident;
+        # an init outside them is moved to the nearer bound
+        step["lower"] = draw(st.sampled_from([None, 0.01, 0.2]))
+        step["upper"] = draw(st.sampled_from([None, 3.0, 8.0]))
     if model == "HKY85+G" and par == "kappa":
         # with rate bins an "independent" kappa would also differ between bins; keep it global
-        return {"op": "set_param", "par": par, "scope": None, "value": value, "const": draw(st.booleans()), "indep": None}
+        return step
     if par == "rate_shape":
-        return {"op": "set_param", "par": par, "scope": None, "value": value, "const": draw(st.booleans()), "indep": None}
+        return step
     scope_kind = draw(st.sampled_from(["global", "edge", "edges", "edges"]))
     if scope_kind == "global":
         scope = None
@@ -103,18 +151,42 @@ def param_step(draw, model, edges):
     indep = draw(st.sampled_from([None, True, False])) if scope is None or len(scope) > 1 else None
     if par == "length":
         value = round(draw(st.floats(0.001, 2.0)), 4)
-    return {"op": "set_param", "par": par, "scope": scope, "value": value, "const": draw(st.booleans()), "indep": indep, "idx": draw(st.integers(0, 50))}
+        if not const and draw(st.integers(0, 11)) == 0:
+            value = 12.0  # beyond the upper bound of a length: moved to the bound
+    step.update(scope=scope, value=value, indep=indep, idx=draw(st.integers(0, 50)))
+    return step
+
+
+@st.composite
+def bad_step(draw, model, edges, rule_only=False):
+    kinds = [k for k in BAD_KINDS if not (rule_only and k == "mprobs-sum")]
+    pars = ["length"] + (RATE_PARAMS[model] or [])
+    es = draw(st.permutations(edges))
+    return {
+        "op": "bad",
+        "kind": draw(st.sampled_from(kinds)),
+        "par": draw(st.sampled_from(pars)),
+        "edge": es[0],
+        "edge2": es[1],
+        "value": round(draw(st.floats(0.05, 2.0)), 4),
+    }
 
 
 @st.composite
 def lf_cases(draw):
-    model = draw(st.sampled_from(MODELS))
-    newick, tips, edges = draw(st.sampled_from(TREES))
+    model = draw(st.sampled_from(MODELS + ["HKY85", "GTR", "TN93", "GN"]))  # the codon model costs ~10x the others: 1 case in 12
+    newick, tips, edges = draw(st.sampled_from(TREES[:2] + TREES[3:] if model == "MG94HKY" else TREES))
     gaps_ok = model != "GS"
-    aln = draw(aln_st(tips, gaps_ok))
+    codon = model == "MG94HKY"
+    aln = draw(aln_st(tips, gaps_ok, codon))
     steps = []
+    top = ["param"] * 6 + ["mprobs", "alignment", "postponed", "postponed", "optimise", "rules", "bad", "bad"]
+    if model in TIME_HET_MODELS:
+        top.append("time_het")
+    if SISTERS[newick]:
+        top.append("local_clock")
     for _ in range(draw(st.integers(1, 10))):
-        kind = draw(st.sampled_from(["param"] * 6 + ["mprobs", "alignment", "postponed", "postponed", "optimise", "rules"]))
+        kind = draw(st.sampled_from(top))
         if kind == "param" and model == "HKY85+G" and draw(st.integers(0, 5)) == 0:
             # the bin probabilities are parameters too (kept well inside the bounds the optimiser puts on them)
             w = draw(st.lists(st.sampled_from([0.02, 0.05, 0.3, 1.0]), min_size=3, max_size=3))
@@ -124,13 +196,46 @@ def lf_cases(draw):
         elif kind == "mprobs":
             steps.append({"op": "set_mprobs", "probs": draw(mprobs_st())})
         elif kind == "alignment":
-            steps.append({"op": "set_alignment", "rows": draw(aln_st(tips, gaps_ok))})
+            steps.append({"op": "set_alignment", "rows": draw(aln_st(tips, gaps_ok, codon))})
         elif kind == "postponed":
+            via = draw(st.sampled_from(["block", "block", "apply_rules"]))
             inner = []
             for _ in range(draw(st.integers(2, 4))):
-                k2 = draw(st.sampled_from(["param", "param", "param", "mprobs"]))
-                inner.append(draw(param_step(model, edges)) if k2 == "param" else {"op": "set_mprobs", "probs": draw(mprobs_st())})
-            steps.append({"op": "postponed", "steps": inner})
+                k2 = "param" if via == "apply_rules" else draw(st.sampled_from(["param"] * 6 + ["mprobs", "mprobs", "alignment"]))
+                if k2 == "param":
+                    inner.append(draw(param_step(model, edges)))
+                elif k2 == "mprobs":
+                    inner.append({"op": "set_mprobs", "probs": draw(mprobs_st())})
+                else:
+                    inner.append({"op": "set_alignment", "rows": draw(aln_st(tips, gaps_ok, codon))})
+            if draw(st.integers(0, 2)) == 0:
+                inner.insert(draw(st.integers(0, len(inner))), draw(bad_step(model, edges, rule_only=via == "apply_rules")))
+            steps.append({"op": "postponed", "steps": inner, "via": via})
+        elif kind == "bad":
+            bad = draw(bad_step(model, edges))
+            steps.append(bad)
+            if draw(st.booleans()) and not (model == "HKY85+G" and bad["par"] == "kappa"):
+                # a rejected rule followed by an accepted one for the same parameter elsewhere: the
+                # parameter is re-evaluated, so anything the rejected rule left behind becomes visible
+                steps.append({"op": "set_param", "par": bad["par"], "scope": [bad["edge2"]], "value": round(draw(st.floats(0.05, 2.0)), 4), "const": draw(st.booleans()), "indep": None, "idx": 0})
+        elif kind == "time_het":
+            sets_kind = draw(st.sampled_from(["each", "one", "two"]))
+            perm = draw(st.permutations(edges))
+            if sets_kind == "each":
+                edge_sets = None
+            elif sets_kind == "one":
+                edge_sets = [sorted(perm[: draw(st.integers(1, len(edges)))])]
+            else:
+                k = draw(st.integers(1, len(edges) - 1))
+                edge_sets = [sorted(perm[:k]), sorted(perm[k:])]
+            const = draw(st.booleans())
+            th = {"op": "time_het", "edge_sets": edge_sets, "value": round(draw(st.floats(0.05, 4.0)), 4), "const": const, "indep": None if const else draw(st.sampled_from([None, True, False]))}
+            if not const and draw(st.integers(0, 3)) == 0:
+                th["lower"] = draw(st.sampled_from([None, 0.01, 0.2]))
+                th["upper"] = draw(st.sampled_from([None, 3.0, 8.0]))
+            steps.append(th)
+        elif kind == "local_clock":
+            steps.append({"op": "local_clock", "tips": draw(st.sampled_from(SISTERS[newick]))})
         elif kind == "optimise":
             steps.append({"op": "optimise", "max_evals": draw(st.integers(1, 20))})
         else:
@@ -138,10 +243,15 @@ def lf_cases(draw):
     case = {"model": model, "tree": newick, "edges": edges, "aln": aln, "steps": steps}
     if model == "HKY85+G" and not any(st_["op"] == "set_bprobs" for st_ in steps) and draw(st.booleans()):
         case["bins"] = 4
+    if model != "GS" and draw(st.integers(0, 3)) == 0:
+        case["opt_mprobs"] = True
     return case
 
 
 # ---------------------------------------------------------------- helpers
+_MODEL_CACHE = {}
+
+
 def make_model(name):
     from cogent3 import DNA, get_model
 
@@ -151,16 +261,35 @@ def make_model(name):
         from cogent3.evolve.ns_substitution_model import GeneralStationary
 
         return GeneralStationary(DNA.alphabet), {}
+    if name == "MG94HKY":
+        # building the codon model costs ~1 s; the model object holds no per-function state, so one is shared
+        if name not in _MODEL_CACHE:
+            _MODEL_CACHE[name] = get_model(name)
+        return _MODEL_CACHE[name], {}
     return get_model(name), {}
 
 
-def build_lf(case, rows):
+def build_lf(case, rows, exp=None):
+    """a new function on the case's tree and the given alignment; with a record `exp`, the tree handed to
+    the constructor carries the recorded lengths and rate parameters ('Lengths are set to the values found
+    in the tree ... Other parameters are scoped based on the unique values found in the tree')"""
     from cogent3 import make_aligned_seqs, make_tree
 
     sm, kw = make_model(case["model"])
     if "bins" in kw and case.get("bins"):
         kw["bins"] = case["bins"]
-    lf = sm.make_likelihood_function(make_tree(case["tree"]), **kw)
+    if case.get("opt_mprobs"):
+        kw["optimise_motif_probs"] = True
+    tree = make_tree(case["tree"])
+    if exp is not None:
+        for e in exp.edges:
+            node = tree.get_node_matching_name(e)
+            for par in exp.pars:
+                if par == "length":
+                    node.length = exp.val[(par, e)]
+                elif par != "rate_shape":
+                    node.params[par] = exp.val[(par, e)]
+    lf = sm.make_likelihood_function(tree, **kw)
     lf.set_alignment(make_aligned_seqs(dict(rows), moltype="dna"))
     return lf
 
@@ -169,21 +298,117 @@ def scoped_params(lf):
     return [p for p in lf.get_param_names() if p not in ("mprobs", "bprobs", "rate")]
 
 
-def fresh_lnl(case, rows, lf):
-    """lnL of a newly built function with every parameter constant at the value lf reports"""
-    f = build_lf(case, rows)
+def reported_mprobs(lf):
     mp = lf.get_motif_probs()
-    f.set_motif_probs(mp.to_dict() if hasattr(mp, "to_dict") else dict(mp), is_constant=True)
-    if "bprobs" in lf.get_param_names():
-        # the bin probabilities of a rate-heterogeneity model are free parameters too
-        f.set_param_rule("bprobs", value=numpy.array(lf.get_param_value("bprobs"), dtype=float), is_constant=True)
-    for par in scoped_params(lf):
+    d = mp.to_dict() if hasattr(mp, "to_dict") else dict(mp)
+    return [float(d[b]) for b in "ACGT"]
+
+
+class Expect:
+    """the harness record of the intended settings, advanced from the step encodings alone"""
+
+    def __init__(self, case, pars):
+        self.edges = list(case["edges"])
+        self.pars = list(pars)  # scoped parameters incl. length and rate_shape
+        self.val = {}
+        self.bnd = {}  # (lower, upper) of a free setting, None for a constant
+        for par in self.pars:
+            for k in self.keys(par):
+                self.val[k] = TREE_LENGTHS[case["tree"]][k[1]] if par == "length" else 1.0
+                self.bnd[k] = default_bounds(par)
+        self.mprobs = None  # ACGT order, once a step has set them
+        self.mprobs_auto = True  # the function re-derives them from every new alignment until set_motif_probs is called
+        self.track_mprobs = True
+        self.bprobs = None
+
+    def keys(self, par):
+        return [(par, None)] if par == "rate_shape" else [(par, e) for e in self.edges]
+
+    def set_rule(self, par, scope, value, const, indep, lower=None, upper=None):
+        """model of _LeafDefn.assign_all; False when the rule must be rejected (bounds crossed), nothing assigned"""
         if par == "rate_shape":
-            f.set_param_rule(par, value=float(lf.get_param_value(par)), is_constant=True)
-            continue
-        for e in case["edges"]:
-            v = float(lf.get_param_value(par, edge=e))
-            f.set_param_rule(par, edge=e, value=v, is_constant=True)
+            groups = [[(par, None)]]
+        else:
+            sc = list(scope) if scope else list(self.edges)
+            independent = (par == "length") if indep is None else bool(indep)  # LengthDefn.independent_by_default
+            groups = [[(par, e)] for e in sc] if independent else [[(par, e) for e in sc]]
+        new = []
+        for g in groups:
+            v = sum(self.val[k] for k in g) / len(g) if value is None else value
+            if const:
+                new.append((g, v, None))
+                continue
+            cur = [self.bnd[k] for k in g if self.bnd[k] is not None and self.bnd[k][0] != self.bnd[k][1]]
+            lo, hi = (min(b[0] for b in cur), max(b[1] for b in cur)) if cur else default_bounds(par)
+            if lower is not None:
+                lo = lower
+            if upper is not None:
+                hi = upper
+            if lo > hi:
+                return False
+            new.append((g, min(max(v, lo), hi), (lo, hi)))
+        for g, v, b in new:
+            for k in g:
+                self.val[k] = v
+                self.bnd[k] = b
+        return True
+
+    def resync(self, lf, s, mprobs=False, bprobs=False):
+        """re-read the values where no step determines them (after optimise / a GeneralStationary rejection)"""
+        for k in self.val:
+            ok, v = s.call("get_param_value", _reported, lf, k)
+            if ok:
+                self.val[k] = v
+        if self.mprobs is not None or mprobs:
+            ok, v = s.call("get_motif_probs", reported_mprobs, lf)
+            self.mprobs = v if ok else None
+        if self.bprobs is not None or bprobs:
+            ok, v = s.call("get_param_value", lambda: [float(x) for x in lf.get_param_value("bprobs")])
+            self.bprobs = v if ok else None
+
+
+def _reported(lf, key):
+    par, e = key
+    return float(lf.get_param_value(par)) if e is None else float(lf.get_param_value(par, edge=e))
+
+
+def fresh_lnl(case, rows, exp, lf):
+    """lnL of a newly built function holding the recorded values"""
+    gs = case["model"] == "GS"
+    # GeneralStationary: the constructor would evaluate the recorded rates with default motif probabilities,
+    # a combination that may be infeasible although the recorded one is not; there the values are set as
+    # constants inside one updates_postponed block so that only the final combination is evaluated
+    f = build_lf(case, rows, None if gs else exp)
+
+    def fill():
+        mp = exp.mprobs if exp.mprobs is not None else reported_mprobs(lf)
+        f.set_motif_probs(dict(zip("ACGT", mp)), is_constant=True)
+        if "bprobs" in lf.get_param_names():
+            # the bin probabilities of a rate-heterogeneity model are free parameters too
+            bp = exp.bprobs if exp.bprobs is not None else lf.get_param_value("bprobs")
+            f.set_param_rule("bprobs", value=numpy.array(bp, dtype=float), is_constant=True)
+        for par in exp.pars:
+            if par == "rate_shape":
+                f.set_param_rule(par, value=exp.val[(par, None)], is_constant=True)
+                continue
+            byval = {}
+            for e in exp.edges:
+                v = exp.val[(par, e)]
+                if gs or (par == "length" and not v):  # the constructor replaces a zero length by its default
+                    byval.setdefault(v, []).append(e)
+            for v, es in byval.items():
+                if len(es) == len(exp.edges):
+                    f.set_param_rule(par, value=v, is_constant=True)
+                elif len(es) == 1:
+                    f.set_param_rule(par, edge=es[0], value=v, is_constant=True)
+                else:
+                    f.set_param_rule(par, edges=es, value=v, is_constant=True)
+
+    if gs:
+        with f.updates_postponed():
+            fill()
+    else:
+        fill()
     return f.lnL
 
 
@@ -201,11 +426,16 @@ def _prob_floor_tag(lf):
     return ""
 
 
-def apply_param(lf, st_, gs_pars):
+def resolve_par(st_, gs_pars):
     par = st_["par"]
     if par == "GSPAR":
         par = gs_pars[st_.get("idx", 0) % len(gs_pars)]
-    kw = {}
+    return par
+
+
+def rule_of(st_, gs_pars):
+    """the keyword arguments of set_param_rule for a set_param step"""
+    kw = {"par_name": resolve_par(st_, gs_pars)}
     if st_["scope"] is not None:
         if len(st_["scope"]) == 1:
             kw["edge"] = st_["scope"][0]
@@ -217,8 +447,58 @@ def apply_param(lf, st_, gs_pars):
         kw.update(value=st_["value"], is_constant=True)
     else:
         kw.update(init=st_["value"])
-    lf.set_param_rule(par, **kw)
-    return par
+        for b in ("lower", "upper"):
+            if st_.get(b) is not None:
+                kw[b] = st_[b]
+    return kw
+
+
+def bad_rule_of(st_):
+    kind, par, e, v = st_["kind"], st_["par"], st_["edge"], st_["value"]
+    if kind == "unknown-edge":
+        return dict(par_name=par, edge="nosuch", init=v)
+    if kind == "unknown-edge-in-list":
+        return dict(par_name=par, edges=[e, "nosuch"], init=v)
+    if kind == "edge-and-edges":
+        return dict(par_name=par, edge=e, edges=[e, st_["edge2"]], init=v)
+    if kind == "crossed-bounds":
+        return dict(par_name=par, edge=e, init=v, lower=5.0, upper=1.0)
+    if kind == "unknown-par":
+        return dict(par_name="nosuchpar", init=v)
+    if kind == "derived-par":
+        return dict(par_name="psubs", init=v)
+    if kind == "unknown-dimension":
+        return dict(par_name="length", bin="bin0", init=v)
+    raise ValueError(kind)
+
+
+def bad_exceptions(kind):
+    from cogent3.core.tree import TreeError
+    from cogent3.recalculation.scope import InvalidDimensionError, InvalidScopeError
+
+    return {
+        "unknown-edge": (InvalidScopeError,),
+        "unknown-edge-in-list": (InvalidScopeError,),
+        "edge-and-edges": (TreeError,),
+        "crossed-bounds": (ValueError,),
+        "unknown-par": (KeyError,),
+        "derived-par": (ValueError,),
+        "unknown-dimension": (InvalidDimensionError,),
+        "mprobs-sum": (ValueError,),
+    }[kind]
+
+
+def run_bad(lf, st_):
+    if st_["kind"] == "mprobs-sum":
+        lf.set_motif_probs({"A": 0.5, "C": 0.5, "G": 0.5, "T": 0.5})
+    else:
+        lf.set_param_rule(**bad_rule_of(st_))
+
+
+def apply_param(lf, st_, gs_pars):
+    kw = rule_of(st_, gs_pars)
+    lf.set_param_rule(**kw)
+    return kw["par_name"]
 
 
 def _infeasible():  # see GS_OK below
@@ -253,130 +533,241 @@ def close(a, b, rtol=1e-9):
 
 # ------------------------------------------------------------ lf histories
 def exec_lf(case) -> Soft:
+    from cogent3 import make_aligned_seqs
+
     s = Soft("C07/")
     model = case["model"]
-    rows = dict(case["aln"])
-    ok, lf = s.call("construct", build_lf, case, rows, allowed=GS_OK.get(case["model"], ()))
+    gs_ok = GS_OK.get(model, ())
+    state = {"rows": dict(case["aln"]), "poisoned": False, "unsettled": False}
+    ok, lf = s.call("construct", build_lf, case, state["rows"], allowed=gs_ok)
     if not ok:
         return s
     gs_pars = [p for p in scoped_params(lf) if p != "length"] if model == "GS" else []
+    exp = Expect(case, scoped_params(lf))
     s.cls("model:" + model)
+    if case.get("opt_mprobs"):
+        s.cls("optimise_motif_probs")
     n_steps = 0
-    postponed_then_change = False
-    seen_postponed = False
+    change_after_block = False
+    seen_block = False
 
-    def verify(tag, what):
-        ok, got = s.call(tag + "/lnL", lambda: float(lf.lnL), allowed=GS_OK.get(case["model"], ()))
+    def verify(tag, what, values=True):
+        """reported values == record for every parameter and edge; lnL == fresh function built from the record"""
+        poisoned = state["poisoned"]
+        if values:
+            for k in exp.val:
+                okv, v = s.call("get_param_value", _reported, lf, k)
+                if okv and not close(v, exp.val[k], 1e-12):
+                    s.fail(POISON_SIG if poisoned else tag + "/reported-vs-intended", f"{k[0]} on edge {k[1]} reported as {v!r}, intended {exp.val[k]!r} -- {what}")
+                    # one report per divergence: continue from what the function reports, so that the lnL
+                    # comparison below and the later steps look for further, independent disagreements
+                    exp.resync(lf, s)
+                    break
+            if exp.mprobs is not None:
+                okv, v = s.call("get_motif_probs", reported_mprobs, lf)
+                if okv and not all(close(a_, b_, 1e-9) for a_, b_ in zip(v, exp.mprobs)):
+                    s.fail(POISON_SIG if poisoned else tag + "/reported-vs-intended", f"motif probs reported {v}, intended {exp.mprobs} -- {what}")
+            if exp.bprobs is not None:
+                okv, v = s.call("get_param_value", lambda: [float(x) for x in lf.get_param_value("bprobs")])
+                if okv and not all(close(a_, b_, 1e-9) for a_, b_ in zip(v, exp.bprobs)):
+                    s.fail(POISON_SIG if poisoned else tag + "/reported-vs-intended", f"bprobs reported {v}, intended {exp.bprobs} -- {what}")
+        ok, got = s.call(tag + "/lnL", lambda: float(lf.lnL), allowed=gs_ok)
         if not ok:
             return
-        ok, want = s.call(tag + "/fresh", fresh_lnl, case, rows, lf, allowed=GS_OK.get(case["model"], ()))
+        ok, want = s.call(tag + "/fresh", fresh_lnl, case, state["rows"], exp, lf, allowed=gs_ok)
         if not ok:
             return
         if not close(got, want):
-            s.fail(tag + "/lnL-vs-fresh", f"{what}: incremental lnL {got!r} != fresh function {want!r} (diff {got - want:.3e})")
+            s.fail(POISON_SIG if poisoned else tag + "/lnL-vs-fresh", f"incremental lnL {got!r} != fresh function {want!r} (diff {got - want:.3e}) -- {what}")
+
+    def rejected(tag, mprobs_unknown=False):
+        """a GeneralStationary rejection: the change is assigned, the recalculation failed; what is reported
+        until the next accepted change is not specified (the record keeps the assigned values)"""
+        s.cls("infeasible-value-rejected")
+        state["unsettled"] = True
+        if mprobs_unknown:
+            # a rejected set_motif_probs may or may not have switched off the re-derivation of the
+            # motif probabilities from later alignments: stop recording them, read them instead
+            exp.mprobs, exp.track_mprobs = None, False
+
+    def record(st_):
+        """advance the record by one accepted inner / top-level change; False if it must be rejected"""
+        op = st_["op"]
+        if op == "set_param":
+            return exp.set_rule(resolve_par(st_, gs_pars), st_["scope"], st_["value"], st_["const"], st_["indep"], st_.get("lower"), st_.get("upper"))
+        if op == "set_mprobs":
+            exp.mprobs_auto = False
+            if exp.track_mprobs:
+                exp.mprobs = list(st_["probs"])
+        elif op == "set_alignment":
+            state["rows"] = dict(st_["rows"])
+            if exp.mprobs_auto:
+                exp.mprobs = None  # derived from the new alignment
+        return True
+
+    def run(st_):
+        op = st_["op"]
+        if op == "set_param":
+            apply_param(lf, st_, gs_pars)
+        elif op == "set_mprobs":
+            lf.set_motif_probs(dict(zip("ACGT", st_["probs"])))
+        elif op == "set_alignment":
+            lf.set_alignment(make_aligned_seqs(dict(st_["rows"]), moltype="dna"))
+        elif op == "bad":
+            run_bad(lf, st_)
+        else:
+            raise ValueError(op)
 
     verify("initial", "after construction")
     for i, st_ in enumerate(case["steps"]):
         op = st_["op"]
         what = f"model {model} tree {case['tree']} step {i} {st_} after {case['steps'][:i]}"
-        if op == "set_param":
-            ok, par = s.call("set_param_rule", apply_param, lf, st_, gs_pars, allowed=_infeasible())
+        if op in ("set_param", "set_mprobs", "set_alignment"):
+            tag = {"set_param": "set_param_rule", "set_mprobs": "set_motif_probs", "set_alignment": "set_alignment"}[op]
+            ok, _ = s.call(tag, run, st_, allowed=_infeasible() if op == "set_param" else gs_ok)
+            accepted = record(st_)
+            if not accepted:
+                s.fail(tag + "/crossed-bounds-accepted", f"{what}: the harness record says the bounds cross")
             if not ok:
-                s.cls("infeasible-value-rejected")
-                return s
-            # the value set must be what is reported for the edges in scope
-            scope = st_["scope"] or case["edges"]
-            if st_["par"] != "rate_shape":
-                for e in scope[:2]:
-                    okv, v = s.call("get_param_value", lambda: float(lf.get_param_value(par, edge=e)))
-                    if okv:
-                        s.check(close(v, st_["value"], 1e-12), "set_param_rule/value-not-applied", f"{what}: edge {e} reports {v}")
-            if seen_postponed:
-                postponed_then_change = True
-            verify("set_param_rule", what)
+                rejected(tag, mprobs_unknown=op == "set_mprobs")
+            else:
+                state["unsettled"] = False
+                if op == "set_param" and any(st_.get(b) is not None for b in ("lower", "upper")):
+                    s.cls("rule-with-bounds")
+                if seen_block and op == "set_param":
+                    change_after_block = True
+                verify(tag, what)
         elif op == "set_bprobs":
             ok, _ = s.call("set_bprobs", lambda: lf.set_param_rule("bprobs", init=numpy.array(st_["probs"], dtype=float)))
-            if not ok:
-                return s
-            okv, v = s.call("get_param_value", lambda: [float(x) for x in lf.get_param_value("bprobs")])
-            if okv:
-                s.check(all(close(a_, b_, 1e-9) for a_, b_ in zip(v, st_["probs"])), "set_param_rule/value-not-applied", f"{what}: bprobs reported {v}")
-            verify("set_param_rule", what)
-        elif op == "set_mprobs":
-            ok, _ = s.call("set_motif_probs", lambda: lf.set_motif_probs(dict(zip("ACGT", st_["probs"]))), allowed=GS_OK.get(case["model"], ()))
-            if not ok:
-                return s
-            verify("set_motif_probs", what)
-        elif op == "set_alignment":
-            from cogent3 import make_aligned_seqs
-
-            rows = dict(st_["rows"])
-            ok, _ = s.call("set_alignment", lambda: lf.set_alignment(make_aligned_seqs(dict(rows), moltype="dna")), allowed=GS_OK.get(case["model"], ()))
-            if not ok:
-                return s
-            verify("set_alignment", what)
+            if ok:
+                exp.bprobs = list(st_["probs"])
+                verify("set_param_rule", what)
+        elif op == "bad":
+            ok, _ = s.call("bad-rule", run_bad, lf, st_, allowed=bad_exceptions(st_["kind"]))
+            if ok:
+                s.fail(f"bad-rule/accepted[{st_['kind']}]", f"{what}: no exception")
+                return s  # the state after an accepted invalid rule is unknown
+            s.cls("bad-rule:" + st_["kind"])
+            seen_block = True
+            # nothing may have changed
+            if not state["unsettled"]:
+                verify("bad-rule", what)
         elif op == "postponed":
-            def block():
-                with lf.updates_postponed():
-                    for inner in st_["steps"]:
-                        if inner["op"] == "set_param":
-                            apply_param(lf, inner, gs_pars)
-                        else:
-                            lf.set_motif_probs(dict(zip("ACGT", inner["probs"])))
+            inner = st_["steps"]
+            via = st_.get("via", "block")
+            bad_at = next((j for j, x in enumerate(inner) if x["op"] == "bad"), None)
+            applied = inner if bad_at is None else inner[:bad_at]
 
-            ok, _ = s.call("updates_postponed", block, allowed=_infeasible())
-            if not ok:
-                s.cls("infeasible-value-rejected")
+            def block():
+                if via == "apply_rules":
+                    lf.apply_param_rules([bad_rule_of(x) if x["op"] == "bad" else rule_of(x, gs_pars) for x in inner])
+                else:
+                    with lf.updates_postponed():
+                        for x in inner:
+                            run(x)
+
+            allowed = _infeasible() + (bad_exceptions(inner[bad_at]["kind"]) if bad_at is not None else ())
+            ok, exc = s.call("updates_postponed", block, allowed=allowed)
+            for x in applied:
+                record(x)
+            seen_block = True
+            tag = "apply_param_rules" if via == "apply_rules" else "updates_postponed"
+            if ok and bad_at is not None:
+                s.fail(f"bad-rule/accepted[{inner[bad_at]['kind']}]", f"{what}: no exception")
                 return s
-            seen_postponed = True
-            verify("updates_postponed", what)
+            if bad_at is not None:
+                # from here on every disagreement has one cause on the unchanged tree: the block was
+                # left through the exception with the calculation still switched off
+                state["poisoned"] = True
+                s.cls("error-inside-" + tag, "bad-rule:" + inner[bad_at]["kind"])
+            if not ok and isinstance(exc, _infeasible()):
+                rejected(tag)
+            else:
+                state["unsettled"] = False
+                verify(tag, what)
+        elif op == "time_het":
+            sets = st_["edge_sets"]
+            kw = {"is_constant": st_["const"]}
+            if sets is not None:
+                kw["edge_sets"] = [dict(edges=list(es)) for es in sets]
+            if st_["const"]:
+                kw["value"] = st_["value"]
+            else:
+                kw["init"] = st_["value"]
+                if st_["indep"] is not None:
+                    kw["is_independent"] = st_["indep"]
+                for b in ("lower", "upper"):
+                    if st_.get(b) is not None:
+                        kw[b] = st_[b]
+            ok, _ = s.call("set_time_heterogeneity", lambda: lf.set_time_heterogeneity(**kw))
+            if not ok:
+                return s
+            for es in sets if sets is not None else [[e] for e in exp.edges]:
+                for par in RATE_PARAMS[model]:
+                    exp.set_rule(par, list(es), st_["value"], st_["const"], st_["indep"], st_.get("lower"), st_.get("upper"))
+            seen_block = True
+            s.cls("time-heterogeneity")
+            verify("set_time_heterogeneity", what)
+        elif op == "local_clock":
+            ok, _ = s.call("set_local_clock", lambda: lf.set_local_clock(*st_["tips"]), allowed=gs_ok)
+            exp.set_rule("length", list(st_["tips"]), None, False, False)
+            if not ok:
+                rejected("set_local_clock")
+            else:
+                state["unsettled"] = False
+                s.cls("local-clock")
+                verify("set_local_clock", what)
         elif op == "optimise":
-            before = None
-            okb, before = s.call("optimise/before", lambda: float(lf.lnL), allowed=GS_OK.get(case["model"], ()))
-            ok, _ = s.call("optimise", lambda: lf.optimise(local=True, max_evaluations=st_["max_evals"], limit_action="ignore", show_progress=False), allowed=GS_OK.get(case["model"], ()))
+            ok, _ = s.call("optimise", lambda: lf.optimise(local=True, max_evaluations=st_["max_evals"], limit_action="ignore", show_progress=False), allowed=gs_ok)
             if not ok:
-                return s
-            verify("optimise", what)
-            s.cls("optimise")
+                return s  # GeneralStationary: where the optimiser stopped is unknown
+            else:
+                state["unsettled"] = False
+                # the optimiser chooses the values: re-read them, then the reported lnL must be theirs
+                exp.resync(lf, s, mprobs=bool(case.get("opt_mprobs")) and exp.track_mprobs, bprobs="bprobs" in lf.get_param_names())
+                verify("optimise", what, values=False)
+                s.cls("optimise")
         elif op == "rules":
             ok, rules = s.call("get_param_rules", lf.get_param_rules)
             if not ok:
                 return s
 
             def rebuild():
-                f = build_lf(case, rows)
+                f = build_lf(case, state["rows"])
                 f.apply_param_rules(rules)
                 return f
 
-            ok, f2 = s.call("apply_param_rules", rebuild, allowed=GS_OK.get(case["model"], ()))
-            if ok:
-                okl, l2 = s.call("apply_param_rules/lnL", lambda: float(f2.lnL), allowed=GS_OK.get(case["model"], ()))
-                okl2, l1 = s.call("rules/lnL", lambda: float(lf.lnL), allowed=GS_OK.get(case["model"], ()))
+            ok, f2 = s.call("apply_param_rules", rebuild, allowed=gs_ok)
+            if ok and not state["unsettled"]:
+                okl, l2 = s.call("apply_param_rules/lnL", lambda: float(f2.lnL), allowed=gs_ok)
+                okl2, l1 = s.call("rules/lnL", lambda: float(lf.lnL), allowed=gs_ok)
                 if okl and okl2 and not close(l1, l2):
-                    s.fail("rules-roundtrip/lnL" + _prob_floor_tag(lf), f"{what}: lnL {l1!r} after export/import {l2!r}")
+                    s.fail(POISON_SIG if state["poisoned"] else "rules-roundtrip/lnL" + _prob_floor_tag(lf), f"{what}: lnL {l1!r} after export/import {l2!r}")
                 okn, (n1, n2) = s.call("rules/nfp", lambda: (lf.get_num_free_params(), f2.get_num_free_params()))
                 if okn:
                     s.eq(n2, n1, "rules-roundtrip/num-free-params", what)
             s.cls("rules-roundtrip")
         n_steps += 1
-    s.nontrivial = n_steps >= 4 and postponed_then_change
+    s.nontrivial = n_steps >= 4 and change_after_block
     return s
 
 
 # -------------------------------------------------------------- calculator
 @st.composite
 def calc_cases(draw):
-    model = draw(st.sampled_from(["HKY85", "GTR", "TN93", "GN", "GS", "HKY85+G"]))
-    newick, tips, edges = draw(st.sampled_from(TREES))
-    aln = draw(aln_st(tips, model != "GS"))
+    model = draw(st.sampled_from(["HKY85", "GTR", "TN93", "GN", "GS", "HKY85+G"] * 2 + ["MG94HKY"]))
+    newick, tips, edges = draw(st.sampled_from(TREES[:2] + TREES[3:] if model == "MG94HKY" else TREES))
+    aln = draw(aln_st(tips, model != "GS", model == "MG94HKY"))
     setup = []
     for _ in range(draw(st.integers(0, 3))):
         setup.append(draw(param_step(model, edges)))
     moves = []
     for _ in range(draw(st.integers(2, 12))):
-        kind = draw(st.sampled_from(["some", "some", "some", "one", "revert", "revert", "repeat", "all", "edge", "change"]))
+        kind = draw(st.sampled_from(["some", "some", "some", "one", "revert", "revert", "revert+some", "revert+some", "repeat", "all", "edge", "change"]))
         mv = {"kind": kind}
-        if kind in ("some", "one", "all", "edge", "change"):
+        if kind == "revert+some":
+            mv["via_change"] = draw(st.booleans())
+        if kind in ("some", "one", "all", "edge", "change", "revert+some"):
             mv["picks"] = draw(st.lists(st.integers(0, 40), min_size=1, max_size=1 if kind == "one" else 4))
             mv["fracs"] = draw(st.lists(st.floats(0.0, 1.0), min_size=len(mv["picks"]), max_size=len(mv["picks"])))
             mv["beyond"] = draw(st.integers(0, 9)) == 0
@@ -409,6 +800,7 @@ def exec_calc(case) -> Soft:
     prev = list(x0)
     history = []
     reverted = False
+    revert_plus = False
     after_raise = False
     pending_full = False
 
@@ -429,6 +821,19 @@ def exec_calc(case) -> Soft:
         if kind == "revert":
             new = list(prev)
             reverted = True
+        elif kind == "revert+some":
+            # what a line search emits: the previous step is taken back AND other coordinates move, so
+            # Calculator.change undoes the last step through the buffer switch and then applies the rest
+            new = list(prev)
+            others = [i for i in range(n) if cur[i] == prev[i]]
+            if others:
+                idxs = sorted({others[p % len(others)] for p in mv["picks"]})
+                for i, f in zip(idxs, (mv["fracs"] * n)[: len(idxs)]):
+                    new[i] = target(i, f, mv["beyond"] and i == idxs[0])
+                if any(cur[i] != prev[i] for i in range(n)) and any(new[i] != prev[i] for i in idxs):
+                    revert_plus = True
+            reverted = True
+            use_change = bool(mv.get("via_change")) and not pending_full
         elif kind == "repeat":
             pass
         else:
@@ -490,11 +895,15 @@ def exec_calc(case) -> Soft:
                 sig += "[after-rejected-vector]"
             elif kind == "revert":
                 sig += "[revert]"
+            elif kind == "revert+some":
+                sig += "[revert+some]"
             s.fail(sig, f"{what}: incremental {got!r} != fresh calculator {want!r} (diff {got - want:.3e})")
         okc, tf = s.call("testfunction", lambda: float(calc.testfunction()))
         if okc and not close(tf, got):
             s.fail("testfunction", f"{what}: testfunction {tf!r} != value just returned {got!r}")
         prev, cur = cur, new
+    if revert_plus:
+        s.cls("revert+some")
     s.nontrivial = len(case["moves"]) >= 4 and reverted
     return s
 
@@ -507,8 +916,8 @@ SUBS = [
 KNOWN_PREDICATES = {}
 
 META = {
-    "technique": "Hypothesis-generated histories of likelihood-function edits and calculator change vectors, each step compared with a history-free rebuild (fresh function with recorded constants / fresh calculator without undo)",
-    "level_text": "Hundreds of generated histories per run over seven model families (incl. non-stationary, gamma-binned and GeneralStationary) exercise scoped and shared parameter rules, motif probabilities, alignment replacement, postponed update blocks, short optimiser runs, rule export/import and calculator change sequences with reverts, repeats and rejected vectors; after every step the incrementally maintained log-likelihood must equal that of an object built from scratch with the same settings (1e-9 relative).",
-    "level_note": "Both sides are computed by cogent3 (the oracle is history-freeness, the absolute value is C02's subject). Bins beyond the gamma model's shape parameter and multi-locus functions are not driven.",
+    "technique": "Hypothesis-generated histories of likelihood-function edits (accepted and rejected) and calculator change vectors, each step compared with a history-free rebuild (fresh function holding the harness's own record of the intended settings as constants / fresh calculator without undo)",
+    "level_text": "Hundreds of generated histories per run over eight model families (incl. non-stationary, gamma-binned, GeneralStationary and a codon model, with constant or optimisable motif probabilities) exercise scoped and shared parameter rules with and without bounds, motif probabilities, alignment replacement, time-heterogeneity and local-clock helpers, postponed update blocks and apply_param_rules batches, changes the library must reject (alone and in the middle of a block, after which the history continues), short optimiser runs, rule export/import and calculator change sequences with reverts, reverts combined with other changes, repeats and rejected vectors; after every step every reported parameter value must equal the harness's record of what was set and the incrementally maintained log-likelihood must equal that of an object built from scratch with the recorded settings (1e-9 relative).",
+    "level_note": "Both sides are computed by cogent3 (the oracle is history-freeness, the absolute value is C02's subject). Bins beyond the gamma model's shape parameter, multi-locus functions and clade / stem / outgroup scopes are not driven; the state between a GeneralStationary rejection and the next accepted change is not asserted.",
     "design_ref": "DESIGN.md section 1, C07",
 }
